@@ -37,7 +37,7 @@ ASSUMPTIONS = [
     'inside buffered write() calls is not explored',
     'step budget per file 6e6 + 4000*len(file) monitored events (PY_START + JUMP)',
 ]
-PROBES = ['hidden_or_glob_name', 'damaged_file_fault_fired', 'exception_in_converter', 'failed_after_output_began', 'two_inputs_one_output', 'worker_ge3_tasks',
+PROBES = ['symlinked_input', 'hidden_or_glob_name', 'damaged_file_fault_fired', 'exception_in_converter', 'failed_after_output_began', 'two_inputs_one_output', 'worker_ge3_tasks',
           'bad_file_first', 'channel_subset_overlap', 'jobs_gt_files', 'jobs_eq_1', 'foreign_file', 'other_format_file', 'subdir', 'ignored_result',
           'schedule_explicit', 'clock_skew', 'healthy_converted']
 
@@ -114,6 +114,8 @@ def gen_files(rng, converter, names, tier):
             if rng.chance(0.8):
                 gen['variant'] = rng.randrange(1, 1 << 16)
         spec = {'path': path, 'gen': gen}
+        if rng.chance(0.08):
+            spec['symlink'] = True
         if kind == 'damaged':
             by, fields, _ = batch.file_content(gen)
             nf = rng.wpick([(6, 1), (2, 2), (1, 3)])
@@ -194,6 +196,8 @@ def _execute(scenario, res, br):
             res.probe('hidden_or_glob_name')
     if cfg['channels']:
         res.probe('channel_subset_overlap')
+    if any(f.get('symlink') for f in scenario['files']):
+        res.probe('symlinked_input')
 
     runs = {}
     alone = None
